@@ -100,6 +100,7 @@ def run(ctx):
                         "blocks are assembled by the node's worker from its mempool")
     finally:
         shutil.rmtree(dbdir, ignore_errors=True)
+    zc.check_aborted(ctx)
     vlib.write_evidence(ctx, "model_checking", cov, [
         "Schnorr/MuSig2 primitives are trusted; base fee set to 0 in the unit driver (fee floor exercised on the chain path only)",
         "conversion / wrapping outputs and the mempool admission path are exercised on the chain path, not in the unit model",
